@@ -72,6 +72,27 @@ Proof.
 Qed.
 Print Assumptions C11_repeatable.
 
+(* How far the printed form can move (finding F08a): what is printed for a visited field is the
+   argument list sorted under the container type of its latest evaluation - when that type declares
+   every supplied argument, exactly the arguments the request wrote, in another order; the values,
+   the selections and everything else of the request are never written to (the state the model
+   threads holds nothing but the container type per field). *)
+Theorem C11_printed_arguments_permuted :
+  forall S sa id name args t0,
+    wf_schema_args S = true -> NoDup (map fst args) ->
+    lookup id sa = Some t0 -> undeclared_args S t0 name args = [] ->
+    Permutation (printed_args S sa id name args) args.
+Proof.
+  intros S sa id name args t0 Hs Hn Hl Hu. unfold printed_args. rewrite Hl.
+  exact (sort_args_perm S t0 name args Hs Hn Hu).
+Qed.
+Print Assumptions C11_printed_arguments_permuted.
+
+Theorem C11_unvisited_fields_print_as_written :
+  forall S sa id name args, lookup id sa = None -> printed_args S sa id name args = args.
+Proof. intros. unfold printed_args. now rewrite H. Qed.
+Print Assumptions C11_unvisited_fields_print_as_written.
+
 (* The printed form: Field.Args is printed in its current order.  After a first visit under an object
    type the order is the declaration order (nil entries dropped), so the printed form of a document whose
    arguments were written in another order changes — the part of finding F08 this model covers. *)
